@@ -56,7 +56,7 @@ Clause(s, rows, P) ==
   ELSE
   CASE s.k = "leaf" ->
          IF s.dom = "mov" /\ \E j \in DOMAIN rows : rows[j][s.v].dep # rows[j]["t"].vid THEN "sampled-for-another-parameter-row"
-         ELSE IF s.kind = "grid" /\ \E i \in 1..K(P) :
+         ELSE IF s.kind \in {"grid", "gridflt"} /\ \E i \in 1..K(P) :
                    {rows[(i - 1) * s.n + j][s.v].fr12 * (s.n + 1) : j \in 1..s.n} # {12 * r : r \in 1..s.n} THEN "incomplete-grid"
          ELSE IF s.kind = "data" /\ \E j \in DOMAIN rows : rows[j][s.v].did # ((j - 1) % s.n) + 1 THEN "data-row-order"
          ELSE IF s.kind = "filtered" /\ \E j \in DOMAIN rows : rows[j][s.v].half # 1 THEN "filter-violated"
